@@ -113,9 +113,11 @@ func (tw *TimerWheel[K, V]) advance(now int64, remove func(entry *Entry[K, V], r
 
 func (tw *TimerWheel[K, V]) expire(index int, prevTicks int64, delta int64, remove func(entry *Entry[K, V], reason RemoveReason)) {
 	mask := tw.buckets[index] - 1
+	// visit the slots of the ticks prevTicks..prevTicks+delta, including the tick that has just
+	// been reached: its entries either expire now or cascade to a finer wheel
 	steps := tw.buckets[index]
-	if delta < int64(steps) {
-		steps = uint(delta)
+	if delta+1 < int64(steps) {
+		steps = uint(delta + 1)
 	}
 	start := prevTicks & int64(mask)
 	end := start + int64(steps)
